@@ -12,6 +12,9 @@ Lines == {L(o, "", "", 0, 0, "") : o \in {"HALT", "MSINK"}}
          \cup {L(o, s, "", 0, 0, "") : o \in {"RELOAD", "MAP"}, s \in Syms}
          \cup {L("MOVE", s, "", 0, 0, "") : s \in Syms \cup {"_", "^", ".", ">", "<"}}
          \cup {L("INCMP", s, sel, 0, 0, "") : s \in {"foo", "_", "^"}, sel \in Selectors}
+         \* the builtin node name _catch: the one legal multi-character symbol that begins with a special character
+         \cup {L("MOVE", "_catch", "", 0, 0, ""), L("INCMP", "_catch", "*", 0, 0, ""), L("INCMP", "_catch", "0", 0, 0, ""),
+               L("CATCH", "_catch", "", 8, 1, ""), L("DOWN", "_catch", "9", 0, 0, "lbl")}
          \cup {L(o, "lbl", sel, 0, 0, "") : o \in {"MOUT", "MNEXT", "MPREV"}, sel \in Selectors \ {"*"}}
          \cup {L("LOAD", "foo", "", n, 0, "") : n \in Sizes}
          \cup {L("CATCH", "foo", "", n, m, "") : n \in {0, 8, 255, 256}, m \in {0, 1}}
